@@ -53,17 +53,12 @@ type acc struct {
 	set  bool
 }
 
-type shadow struct {
-	w  []acc // last plain write per thread
-	r  []acc // last plain read per thread
-	aw []acc // last atomic op per thread
-}
+const maxT = 12
 
-func grow(a []acc, i int) []acc {
-	for len(a) <= i {
-		a = append(a, acc{})
-	}
-	return a
+type shadow struct {
+	w  [maxT]acc // last plain write per thread
+	r  [maxT]acc // last plain read per thread
+	aw [maxT]acc // last atomic op per thread
 }
 
 func (s *Sched) report(field, a, b, kinds string) {
@@ -85,53 +80,56 @@ func fieldOf(site string) string {
 	return site
 }
 
-// access records a plain (kind 0/1 = read/write) or atomic (kind 2) access
+func (s *Sched) conc(t *thread, a *[maxT]acc, site string, kind int, kinds string) {
+	me := t.id
+	for tid := range a {
+		x := &a[tid]
+		if !x.set || tid == me {
+			continue
+		}
+		if x.clk > t.vc.at(tid) {
+			f := fieldOf(site)
+			if kind >= 2 {
+				f = fieldOf(x.site)
+			}
+			s.report(f, x.site, site, kinds)
+		}
+	}
+}
+
+// access records a plain (kind 0/1 = read/write) or atomic (kind 2/3) access
 // by the running thread and reports conflicts with earlier accesses that do
 // not happen-before it.
 func (s *Sched) access(p unsafe.Pointer, site string, kind int) {
-	if s.NoRace {
+	if s.NoRace || !s.multi {
 		return
 	}
 	t := s.running
+	me := t.id
+	if me >= maxT {
+		return
+	}
 	sh := s.shadow[p]
 	if sh == nil {
 		sh = &shadow{}
 		s.shadow[p] = sh
 	}
-	me := t.id
-	conc := func(a []acc, kinds string) {
-		for tid, x := range a {
-			if !x.set || tid == me {
-				continue
-			}
-			if x.clk > t.vc.at(tid) {
-				f := fieldOf(site)
-				if kind >= 2 {
-					f = fieldOf(x.site)
-				}
-				s.report(f, x.site, site, kinds)
-			}
-		}
-	}
 	switch kind {
-	case 0: // plain read: conflicts with plain writes and atomic ops (treated as writes)
-		conc(sh.w, "w/r")
-		conc(sh.aw, "a/r")
-		sh.r = grow(sh.r, me)
+	case 0: // plain read: conflicts with plain writes and atomic writes
+		s.conc(t, &sh.w, site, kind, "w/r")
+		s.conc(t, &sh.aw, site, kind, "a/r")
 		sh.r[me] = acc{t.vc.at(me), site, true}
 	case 1:
-		conc(sh.w, "w/w")
-		conc(sh.r, "r/w")
-		conc(sh.aw, "a/w")
-		sh.w = grow(sh.w, me)
+		s.conc(t, &sh.w, site, kind, "w/w")
+		s.conc(t, &sh.r, site, kind, "r/w")
+		s.conc(t, &sh.aw, site, kind, "a/w")
 		sh.w[me] = acc{t.vc.at(me), site, true}
 	case 2: // atomic store / read-modify-write: conflicts with plain accesses only
-		conc(sh.w, "w/a")
-		conc(sh.r, "r/a")
-		sh.aw = grow(sh.aw, me)
+		s.conc(t, &sh.w, site, kind, "w/a")
+		s.conc(t, &sh.r, site, kind, "r/a")
 		sh.aw[me] = acc{t.vc.at(me), site, true}
 	case 3: // atomic load: conflicts with plain writes only
-		conc(sh.w, "w/a")
+		s.conc(t, &sh.w, site, kind, "w/a")
 	}
 }
 
@@ -206,9 +204,9 @@ func Atomic(p unsafe.Pointer, op string, write bool) {
 	}
 	s.point(op, nil)
 	if write {
-		s.access(p, "atomic "+op, 2)
+		s.access(p, op, 2)
 	} else {
-		s.access(p, "atomic "+op, 3)
+		s.access(p, op, 3)
 	}
 	s.Acquire(p)
 	if write {
